@@ -60,6 +60,11 @@ func MutexTryLock(m *sync.Mutex) bool {
 	return ok
 }
 
+// An RWMutex has two clocks: what writers released (key m) and what readers released
+// (key m+1). A reader acquires only the writers' clock, so two read-lock holders are
+// NOT ordered with respect to each other (as in Go's memory model); a writer acquires both.
+func rclock(m *sync.RWMutex) unsafe.Pointer { return unsafe.Add(unsafe.Pointer(m), 1) }
+
 func RWLock(m *sync.RWMutex) {
 	if !schedActive {
 		if SingleThreaded {
@@ -75,6 +80,7 @@ func RWLock(m *sync.RWMutex) {
 		blockYield()
 	}
 	SyncAcquire(unsafe.Pointer(m))
+	SyncAcquire(rclock(m))
 	curTask.locks++
 }
 
@@ -103,9 +109,9 @@ func RWRLock(m *sync.RWMutex) {
 	SyncAcquire(unsafe.Pointer(m))
 }
 
-// RWRUnlock: readers release too (a later writer is ordered after them).
+// RWRUnlock: a later WRITER is ordered after this reader; other readers are not.
 func RWRUnlock(m *sync.RWMutex) {
-	SyncRelease(unsafe.Pointer(m))
+	SyncRelease(rclock(m))
 	m.RUnlock()
 }
 
